@@ -22,7 +22,8 @@ string of n characters of a fixed pattern, ``{"i": n}`` an n-digit int, scalars 
      that look like syntax) alone, as the only list element, as a dict value and as a dict key
   B4 very long flat containers (one-line form 450..1300 characters): must come out wrapped
 
-Oracle (from the statement): the no-color text and the joined line iteration both parse (json.loads
+Oracle (from the statement): the no-color text and the joined line iteration (lines rendered as they are
+yielded, and the kept line objects rendered after the iteration has finished) all parse (json.loads
 / ast.literal_eval) to a value that is equal *including types* (True is not 1, 1 is not 1.0); no key
 occurs twice in the text of a dict; textual key order is sorted (ints numerically among ints, strings
 among strings); no output line is longer than 2 x 200 + the longest single entry (a container that
@@ -49,8 +50,10 @@ LEVEL_NOTE = ("Small-scope: containers with more than one sweep element, strings
               "alphabet, nesting deeper than 3 around a threshold container are not covered. Trusted: json.loads, "
               "ast.parse/literal_eval, the spec builder in this file. Layout (indentation, where exactly a line "
               "breaks) is deliberately not part of the oracle: the statement does not fix it.")
-RULE = ("case = (object spec, mode); the object is rendered twice (plain_text of the result, join of the line "
-        "iterator) and each rendering parsed and compared. Distinct by construction: distinct specs or modes. "
+RULE = ("case = (object spec, mode); the object is rendered by a fresh PrettyPrinter as a whole (plain_text of the "
+        "result) and through the line iterator (each line rendered when yielded, and again after the iterator is "
+        "exhausted - a consumer may keep the lines); every rendering that differs from the whole text is parsed "
+        "and compared as well. Distinct by construction: distinct specs or modes. "
         "Non-trivial: the output has more than one line, or a threshold quantity of the object (offset + one-line "
         "length; indent + run length) lies inside its sweep window.")
 ASSUMPTIONS = [
@@ -69,9 +72,11 @@ REQUIRED_FEATURES = [
     "leaf:empty-dict", "nest:depth3", "offset:0", "offset:2", "offset:4", "offset:6",
     "thr200:199", "thr200:200", "thr200:201", "thr150:149", "thr150:150", "thr150:151",
     "sweep:list-element", "sweep:dict-value", "sweep:dict-key", "sweep:count",
-    "elem:longer-than-line", "out:one-line", "out:multi-line", "out:list-on-several-lines",
-    "out:line-with-several-elements", "long:must-wrap", "scalar:special",
+    "elem:longer-than-line", "long:must-wrap", "scalar:special",
 ]
+# "out:..." features (one-line / multi-line output, list printed on several lines, line holding several
+# elements) are observed on the implementation's output; they are counted in the evidence but not required,
+# so that a broken implementation cannot make the exploration look vacuous.
 
 PAT = "ab, c: [d] {e} #f = g; é "
 
@@ -267,7 +272,8 @@ def parse_text(text, mode):
         tree = ast.parse(text, mode="eval")
         value = ast.literal_eval(tree.body)
     except (ValueError, SyntaxError, TypeError, MemoryError, RecursionError) as e:
-        raise _Unparseable(f"{type(e).__name__}: {e}")
+        import re
+        raise _Unparseable(f"{type(e).__name__}: " + re.sub(r" at 0x[0-9a-f]+", "", str(e)))
     for node in ast.walk(tree):
         if isinstance(node, ast.Dict):
             try:
@@ -325,13 +331,9 @@ def diff_class(want, got):
 
 
 # ------------------------------------------------------------------------------------------ oracle
-_PP = {}
-
-
 def _printer(mode):
-    if mode not in _PP:
-        _PP[mode] = PrettyPrinter(fmt_json=(mode == "json"))
-    return _PP[mode]
+    # a fresh printer per rendering: the case must not depend on what was printed before (replayable)
+    return PrettyPrinter(fmt_json=(mode == "json"))
 
 
 WRAP_SLACK = 400
@@ -371,9 +373,12 @@ def check_case(spec, mode, acc):
     obj = build(spec)
     acc.trans(2)
     try:
-        res = _printer(mode)(obj, no_color=True)
-        text = res.plain_text()
-        lines = [ln.plain_text() for ln in _printer(mode)(obj, no_color=True)]
+        text = _printer(mode)(obj, no_color=True).plain_text()
+        kept, lines = [], []
+        for ln in _printer(mode)(obj, no_color=True):     # line iteration: rendered at once ...
+            lines.append(ln.plain_text())
+            kept.append(ln)
+        later = [ln.plain_text() for ln in kept]          # ... and the same line objects rendered afterwards
     except Exception as e:  # noqa
         return (("raises:" + type(e).__name__ + ":" + shape_class(obj),
                  f"printing raised {type(e).__name__}: {e}", repr(e), "text"), None, 0)
@@ -385,6 +390,10 @@ def check_case(spec, mode, acc):
             v2 = judge(obj, mode, joined, want)
             if v2 is not None:
                 v = ("by-line:" + v2[0],) + v2[1:]
+    if v is None and later != lines:
+        v2 = judge(obj, mode, "\n".join(later), want)
+        if v2 is not None:
+            v = ("kept-lines:" + v2[0],) + v2[1:]
     return v, text, text.count("\n") + 1
 
 
@@ -749,8 +758,8 @@ def _run_B3(shard, p, acc):
             feats = set(_offset_features(ctx))
             feats.add("sweep:count")
             _leaf_features(X, feats)
-            wide = (150, 250)
-            hit = _thr_features(X, offset, feats, wide, (140, 160))
+            _thr_features(X, offset, feats, p["win200"], p["win150"])
+            hit = 150 <= offset + rlen(X) <= 250
             for mode in ("json", "py"):
                 nl = _one(acc, spec, mode, feats, nontrivial_hint=hit, sample=(m == 70))
                 if not ctx and nl >= 3:
